@@ -29,5 +29,10 @@ Next == /\ HasNT(toks) /\ Len(toks) < 40
                r == RandomElement(pool)
            IN toks' = SubSeq(toks, 1, i - 1) \o r \o SubSeq(toks, i + 1, Len(toks))
 Complete == ~HasNT(toks)
-Emit == Complete => PrintT(ToJson([toks |-> toks, garbled |-> FALSE]))
+\* (see C07_Gen.EvMask: Python is asked for the value only where the reference value is inside the
+\* model's exact bounds)
+EvMask(ts) == LET rv == RefValues(ts) IN
+              IF rv = << >> THEN [i \in 1..Len(Envs) |-> TRUE]
+              ELSE [i \in 1..Len(Envs) |-> ~IsUnrep(rv[i])]
+Emit == Complete => PrintT(ToJson([toks |-> toks, garbled |-> FALSE, ev |-> EvMask(toks)]))
 =============================================================================
